@@ -361,3 +361,64 @@ def apply_changes_contract(which):
     c.loop_select = lambda node: LoopSpec(inv)
     c.region_name = "applying the proposed merges (%s)" % ("parameter permutations" if which == 0 else "sign flips")
     return c
+
+
+# ------------------------------------------------------------ timeout handlers that re-align parallel lists (C15)
+def _realign_handlers(fnode):
+    """bodies (the `nkeep = min(...)`, `del ...` pair) of the TimeoutException handlers that truncate parallel lists, in source order"""
+    out = []
+    for n in _ast.walk(fnode):
+        if isinstance(n, _ast.ExceptHandler):
+            b = n.body
+            for k in range(len(b) - 1):
+                if isinstance(b[k], _ast.Assign) and isinstance(b[k].value, _ast.Call) and getattr(b[k].value.func, "id", None) == "min" and isinstance(b[k + 1], _ast.Delete):
+                    out.append((n.lineno, [b[k], b[k + 1]]))
+    return [x[1] for x in sorted(out, key=lambda x: x[0])]
+
+
+def realign_contract(qual, which):
+    """After the handler the parallel lists have the same length -- the shortest of the lengths they had when the timeout struck -- and each
+    is the prefix of what it was: a record that was only partly appended is dropped from every list, complete records stay in place."""
+    def region(fnode):
+        hs = _realign_handlers(fnode)
+        return hs[which] if which < len(hs) else None
+
+    def names_of(body):
+        return [t.value.id for t in body[1].targets if isinstance(t, _ast.Subscript) and isinstance(t.value, _ast.Name)]
+
+    holder = {}
+
+    def setup(eng, st, args):
+        holder["orig"] = {n: (st.heap[v.addr].len, st.heap[v.addr].get) for n, v in args.items()}
+
+    def ensures(S, a, res):
+        orig = holder["orig"]
+        k = z3.Int(fresh_name("k!sk"))
+        lens = [l for l, g in orig.values()]
+        m = lens[0]
+        for l in lens[1:]:
+            m = z3.If(l < m, l, m)
+        out = []
+        for n, (l0, g0) in orig.items():
+            o = S.seq(S.var(n))
+            e, e0 = o.get(k), g0(k)
+            out.append(("%s is cut to the shortest of the lists' lengths" % n, o.len == m))
+            out.append(("%s keeps its first entries" % n, z3.Implies(z3.And(0 <= k, k < m), S.eng.key_term(e) == S.eng.key_term(e0))))
+        return out
+
+    class Lazy(dict):
+        pass
+    # the parameter list depends on the handler's text: it is read off the `del` statement when the engine is created
+    def make(eng):
+        fnode = eng.find_function(qual)
+        hs = _realign_handlers(fnode)
+        if which >= len(hs):
+            raise Unsupported("re-aligning handler #%d of %s not found" % (which, qual))
+        ns = names_of(hs[which])
+        if len(ns) < 2:
+            raise Unsupported("the handler truncates fewer than two lists")
+        c = Contract(qual, {n: T.list(T.fn) for n in ns}, ensures=ensures, setup=setup, region=region, raises=lambda S, a, e: z3.BoolVal(False))
+        c.region_name = "timeout handler #%d re-aligning %s" % (which, ", ".join(ns))
+        return c
+    make.needs_engine = True
+    return make
